@@ -529,6 +529,7 @@ class FunctionVerifier:
             I.env['__out__'] = I.out
         for cl in c.requires:
             I.assume(I.to_bool(I.ev_pure(cl.node)))
+        I.oblige('cover/requires', False, 'cover')       # vacuity guard: the precondition must be satisfiable
         if c.decreases:
             I.entry_measure = [I.ev_pure(d.node) for d in c.decreases]
         outcome = None
